@@ -22,6 +22,7 @@ CallOf(e) ==
   CASE e.op = "register"   -> [op |-> "register", ep |-> e.ep, tok |-> e.tok, p |-> e.p]
     [] e.op = "deregister" -> [op |-> "deregister", ep |-> e.ep, tok |-> e.tok, p |-> e.p]
     [] e.op = "changed"    -> [op |-> "changed", p |-> e.p, mid |-> e.mid, con |-> e.con]
+    [] e.op = "changed_many" -> [op |-> "changed_many", p |-> e.p, mid |-> e.mid, n |-> e.n]
     [] e.op = "ack"        -> [op |-> "ack", ep |-> e.ep, mid |-> e.mid]
     [] e.op = "limit"      -> [op |-> "limit", n |-> e.n]
 
@@ -38,7 +39,8 @@ JudgeNotify(e) ==
        THEN {} ELSE {"C15"}
 
 \* which property a rejected step belongs to
-Blame(e) == IF e.op = "changed" /\ e.panicked THEN {"C15"}
+Blame(e) == IF e.op \in {"changed", "changed_many"} /\ e.panicked THEN {"C15"}
+            ELSE IF e.op = "changed_many" THEN {"C15"}
             ELSE IF e.op \in {"register", "deregister"} THEN {"C14"}
             ELSE IF e.op \in {"ack", "limit"} THEN {"C15"}
             ELSE {"C14", "C15"}
@@ -60,7 +62,7 @@ Step ==
                /\ live' = FALSE /\ UNCHANGED s
           ELSE LET x == CHOOSE x \in ok : TRUE IN
                /\ s' = x /\ UNCHANGED live
-               /\ bad' = IF OneObserverPerEndpoint(x) /\ (x # ObsApply(s, c) \/ StepProps(s, c, x)) THEN bad
+               /\ bad' = IF OneObserverPerEndpoint(x) /\ (c.op = "changed_many" \/ x # ObsApply(s, c) \/ StepProps(s, c, x)) THEN bad
                          ELSE AddBad(bad, BadEntry(l, Blame(e), "step property"))
 
 Finish == l = NRec + 1 /\ ~done /\ done' = TRUE /\ UNCHANGED << l, s, live, bad >>
